@@ -141,7 +141,7 @@ func main() {
 	histPer := run.Pick(4, 12)    // histories per child
 	nConc := run.Pick(48, 1800)   // concurrent cases
 	concPer := run.Pick(6, 20)    // per child
-	nE2E := run.Pick(10, 300)    // e2e children, one history + one http-concurrent scenario each
+	nE2E := run.Pick(10, 300)     // e2e children, one history + one http-concurrent scenario each
 	e2eSteps := run.Pick(30, 50)  //
 	variants := map[string]int{}  // crash-case variants per operation
 	for _, op := range crashOps {
